@@ -11,7 +11,7 @@ import signal
 
 VERIF = os.path.dirname(os.path.dirname(os.path.abspath(__file__)))
 BUILD_ROOT = os.environ.get('VERIF_BUILD_ROOT', os.path.join(VERIF, '.build'))
-RUN_ROOT = os.path.join(VERIF, '.run')
+RUN_ROOT = os.environ.get('VERIF_RUN_DIR', os.path.join(VERIF, '.run', 'adhoc'))
 
 ASAN_ENV = {
     'ASAN_OPTIONS': 'detect_leaks=0:abort_on_error=1:handle_abort=1:allocator_may_return_null=1:symbolize=1:detect_stack_use_after_return=0',
